@@ -431,7 +431,19 @@ func (s *sim) didChange() {
 			el, ec = sl, sc
 		}
 		nt := []string{"", "x", "é", "😀", "\n", "ab\ncd", " -- c\r\n", "SELECT 1;"}[s.src.Intn(8, "c18.newtext")]
-		changes = append(changes, map[string]any{"range": map[string]any{"start": map[string]any{"line": sl, "character": sc}, "end": map[string]any{"line": el, "character": ec}}, "text": nt})
+		ch := map[string]any{"range": map[string]any{"start": map[string]any{"line": sl, "character": sc}, "end": map[string]any{"line": el, "character": ec}}, "text": nt}
+		if m.known && s.src.Intn(2, "c18.rangelen") == 1 {
+			// deprecated but still sent by clients: the length of the replaced range
+			// in UTF-16 code units. A correct client sends the true length; the
+			// range remains authoritative.
+			if so, ok1, _ := lspOffset(m.text, sl, sc); ok1 {
+				if eo, ok2, _ := lspOffset(m.text, el, ec); ok2 && eo >= so {
+					ch["rangeLength"] = utf16Len(m.text[so:eo])
+					s.r.Faults["change.with-rangeLength"]++
+				}
+			}
+		}
+		changes = append(changes, ch)
 		if m.known {
 			res, ok, c := applyLSP(m.text, sl, sc, el, ec, nt)
 			class += c + " "
@@ -642,4 +654,16 @@ func (s *sim) sweepEvent() {
 		m.known = false
 	}
 	s.notify("textDocument/didChange", map[string]any{"textDocument": map[string]any{"uri": uri, "version": m.version}, "contentChanges": []any{map[string]any{"range": map[string]any{"start": map[string]any{"line": a[0], "character": a[1]}, "end": map[string]any{"line": b[0], "character": b[1]}}, "text": "X"}}})
+}
+
+func utf16Len(s string) int {
+	n := 0
+	for _, r := range s {
+		if r >= 0x10000 {
+			n += 2
+		} else {
+			n++
+		}
+	}
+	return n
 }
